@@ -83,6 +83,15 @@ def contract(rec, root, recursive, full) -> Contract:
                 # the kernel event plus one walk-after-mkdir per new ancestor that got its watch before this one existed
                 c.P[E("DirCreatedEvent", p)] = i + 1
                 c.R.add(E("DirModifiedEvent", _par(p)))
+    elif k == "burst":
+        # soundness only: whatever the walk-after-mkdir and the kernel report must name an entry the burst created
+        for q, kind in rec["new"]:
+            p = _rel(q, root)
+            if vis(p):
+                c.A.add(E(K(kind, "CreatedEvent"), p))
+                c.A.add(E("DirModifiedEvent", _par(p)))
+                if kind == "f":
+                    c.A |= {E("FileOpenedEvent", p), E("FileClosedEvent", p)}
     elif k == "rmdir":
         p = _rel(op[1], root)
         if vis(p):
